@@ -13,6 +13,12 @@
 //	     the REAL getSortedProducers / getSortedProducersDposV2 on a state holding these producers, called
 //	     reps times (fresh map, different insertion order each time).  Output: the node keys in order, or
 //	     "unstable" when two repetitions disagree.
+//	snap <votes:nodekey:ownerkey>...
+//	     Snapshot() of the REAL DPoS checkpoint of a state holding these producers, serialised before and after
+//	     the live state is changed.  Output: isolated | shared.
+//	ckorder <reps> <key:priority,...>
+//	     the order in which the REAL node's checkpoint manager (CR state, DPoS state, tx pool, … as registered by
+//	     an in-process node) notifies its checkpoints, asked reps times; the key:priority pairs are oracle values.
 //	wrand <seed|none> <normal> <cands> <period> <height> <unclaimed> <lastH> <lastOwner|-> <iso> <env> <blk> <tip> <votes:nodekey:ownerkey>...
 //	     the REAL getSortedProducersWithRandom (the producer order handed to the next-arbiter computation) on a
 //	     state holding these producers, three times on freshly built maps, with the environment acting at the
@@ -29,6 +35,7 @@ import (
 	"fmt"
 	"math"
 	"math/rand"
+	"os"
 	"sort"
 	"strconv"
 	"strings"
@@ -36,6 +43,7 @@ import (
 	"sync/atomic"
 
 	"elaverif/harness/hx"
+	"elaverif/harness/regnet"
 
 	"github.com/elastos/Elastos.ELA/common"
 	"github.com/elastos/Elastos.ELA/core/types"
@@ -384,8 +392,73 @@ func execWrand(t []string) string {
 	return first
 }
 
+var ckNode *regnet.Node
+var ckDir string
+
+func ckManager() *regnet.Node {
+	if ckNode == nil {
+		d, err := os.MkdirTemp("", "c24ck")
+		if err != nil {
+			panic("harness: " + err.Error())
+		}
+		n, err := regnet.NewNode(d, regnet.Options{NoPoolEvents: true})
+		if err != nil {
+			panic("harness: regnet node: " + err.Error())
+		}
+		ckNode, ckDir = n, d
+	}
+	return ckNode
+}
+
+// the real node's checkpoint manager with everything the node registers (CR state, DPoS state, tx pool, …):
+// key:priority of the registered checkpoints, sorted by key
+func ckPairs() string {
+	var ps []string
+	for _, c := range ckManager().Chain.CkpManager.VerifOrderedCheckpoints() {
+		ps = append(ps, fmt.Sprintf("%s:%d", c.Key(), c.Priority()))
+	}
+	sort.Strings(ps)
+	return strings.Join(ps, ",")
+}
+
+func execCkOrder(t []string) string {
+	if got := ckPairs(); got != t[2] {
+		return "oracle-mismatch " + got
+	}
+	var first string
+	for k := 0; k < atoi(t[1]); k++ {
+		var keys []string
+		for _, c := range ckManager().Chain.CkpManager.VerifOrderedCheckpoints() {
+			keys = append(keys, c.Key())
+		}
+		cur := strings.Join(keys, ",")
+		if k == 0 {
+			first = cur
+		} else if cur != first {
+			lastUnstable = first + " | " + cur
+			return "unstable"
+		}
+	}
+	return first
+}
+
+func execSnap(t []string) string {
+	before, after, err := state.VerifSnapshotIsolation(toVerif(parseProds(t[1:]), 0))
+	if err != nil {
+		return "err " + strings.ReplaceAll(err.Error(), " ", "_")
+	}
+	if !bytes.Equal(before, after) {
+		return "shared"
+	}
+	return "isolated"
+}
+
 func exec(t []string) string {
 	switch t[0] {
+	case "snap":
+		return execSnap(t)
+	case "ckorder":
+		return execCkOrder(t)
 	case "wrand":
 		return execWrand(t)
 	case "sort":
@@ -453,6 +526,27 @@ func exec(t []string) string {
 // undisturbed private generator seeded from the block hash draws first.
 func oracle(t []string, out string) *hx.Violation {
 	switch t[0] {
+	case "snap":
+		if out == "shared" {
+			return &hx.Violation{Kind: "checkpoint-snapshot-shares-live-state",
+				Detail: "the DPoS checkpoint snapshot handed to the asynchronous file writer changed when the live state changed afterwards: the file (and a node restarting from it) depends on when the writer runs"}
+		}
+		return nil
+	case "ckorder":
+		// the order in which CR state, DPoS state, … see a block must be a function of the registered set
+		seen := map[string]string{}
+		for _, p := range strings.Split(t[2], ",") {
+			kv := strings.Split(p, ":")
+			if other, dup := seen[kv[1]]; dup {
+				return &hx.Violation{Kind: "checkpoint-order-ambiguous",
+					Detail: fmt.Sprintf("checkpoints %s and %s have the same priority %s: the order in which they process a block follows Go's map iteration (observed: %s)", other, kv[0], kv[1], out)}
+			}
+			seen[kv[1]] = kv[0]
+		}
+		if out == "unstable" {
+			return &hx.Violation{Kind: "checkpoint-order-depends-on-map-order", Detail: lastUnstable}
+		}
+		return nil
 	case "wrand":
 		if strings.HasPrefix(out, "oracle-mismatch") {
 			return nil
@@ -519,6 +613,15 @@ func oracle(t []string, out string) *hx.Violation {
 }
 
 func gen(g *hx.Gen) {
+	for i := 0; i < g.N(20, 200); i++ {
+		g.Emit("snap %s", strings.Join(genProds(g, 2+g.R.Intn(8), true), " "))
+	}
+	g.Emit("ckorder 40 %s", ckPairs())
+	if ckNode != nil {
+		ckNode.Close()
+		os.RemoveAll(ckDir)
+		ckNode = nil
+	}
 	genMore(g)
 	envs := []string{"-", "d7", "d1", "d1000000", "d0", "s1", "s42,d3", "d3,d5,d9", "d2,s7,d2", "H-", "Hd5", "Hs9"}
 	for i := 0; i < g.N(3000, 60000); i++ {
